@@ -43,13 +43,22 @@ def gen_lines(chk=None, level='full', timeout=1500):
 _mn = None
 
 
-def _init():
+def _init(restore=True):
+    """import miasmX in this (worker) process.  With an empty PLY table directory ply/yacc.py read_table() leaves
+    sys.path = [tempdir] behind (finding F-C10-asm-ply-syspath); whether a worker is hit depends on which worker writes
+    the tables first, so the path is restored here to keep every worker alike.  The defect itself is observed
+    deterministically by c10_asm.fresh_cache_probe (restore=False in a process of its own)."""
     global _mn
     irlib._init_worker(False)
     import logging
     logging.disable(logging.CRITICAL)
     sys.stdout = open(os.devnull, 'w')          # the lexers print "Illegal character ..."
+    saved = list(sys.path)
     from miasmx.arch.ia32_arch import x86mnemo
+    if restore:
+        import miasmx.core.parse_ad          # otherwise imported (and its PLY tables built) lazily by the first asm() call
+    if restore and sys.path != saved:
+        sys.path[:] = saved
     _mn = x86mnemo
 
 
@@ -86,12 +95,14 @@ def asm_one(item):
 
 
 def pmap(fn, items, chunk=500):
-    if len(items) < 200:
-        _init()
-        return [fn(x) for x in items]
+    """always in forked workers: importing miasmX with an empty PLY table directory leaves sys.path = [tempdir]
+    (ply/yacc.py read_table), which must not happen to the harness process"""
+    if not items:
+        return []
+    n = max(1, min(core.NCPU, len(items) // 100))
     ctx = multiprocessing.get_context('fork')
-    with ctx.Pool(core.NCPU, initializer=_init) as p:
-        return p.map(fn, items, chunksize=chunk)
+    with ctx.Pool(n, initializer=_init) as p:
+        return p.map(fn, items, chunksize=max(1, min(chunk, len(items) // n)))
 
 
 def run_asm(items):
@@ -99,10 +110,10 @@ def run_asm(items):
     return pmap(asm_one, items)
 
 
-def fresh_asm(items):
+def fresh_asm(items, restore=True, env=None):
     """same, in one fresh interpreter per call batch (used to confirm that a finding does not depend on call order)"""
-    p = core.run_py(['-c', 'import sys, json\nfrom vf import asmlib\nprint(json.dumps([asmlib.asm_one(tuple(x)) for x in json.load(sys.stdin)]), file=sys.__stdout__)'],
-                    input_obj=items, timeout=600)
+    p = core.run_py(['-c', 'import sys, json\nfrom vf import asmlib\nasmlib._init(%s)\nprint(json.dumps([asmlib.asm_one(tuple(x)) for x in json.load(sys.stdin)]), file=sys.__stdout__)' % restore],
+                    input_obj=items, timeout=600, env=env)
     if p.returncode != 0:
         raise core.MachineryError('fresh_asm failed: ' + p.stderr[-1000:])
     return json.loads(p.stdout.strip().splitlines()[-1])
@@ -166,3 +177,90 @@ def op_shape(o):
 
 def shape(ins):
     return ','.join(op_shape(o) for o in ins['ops'])
+
+
+# ---------------------------------------------------------------- decode + re-assemble round trip, GNU as
+def roundtrip_one(hexb):
+    """dis(b) -> (len, Intel text, AT&T text); asm(Intel text) and asm_att(AT&T text).  Every step classified."""
+    if _mn is None:
+        _init()
+    b = bytes.fromhex(hexb)
+    r = {'st': 'absent', 'len': 0, 'text': '', 'att': '', 'attst': 'none', 'exc': None}
+    old = signal.signal(signal.SIGALRM, irlib._alarm)
+    signal.alarm(5)
+    try:
+        try:
+            ins = _mn.dis(b)
+            if ins is None:
+                return r
+            r['len'] = int(ins.l)
+            r['text'] = str(ins)
+            r['st'] = 'instr'
+        except irlib._TO:
+            r['st'] = 'timeout'
+            return r
+        except Exception as x:
+            r['st'] = 'exc'
+            r['exc'] = irlib.exc_key(x)
+            return r
+        try:
+            r['att'] = ins.__str__(asm_format='att_syntax binutils')
+            r['attst'] = 'ok'
+        except irlib._TO:
+            r['attst'] = 'timeout'
+        except Exception as x:
+            r['attst'] = 'exc'
+            r['attexc'] = irlib.exc_key(x)
+    finally:
+        signal.alarm(0)
+        signal.signal(signal.SIGALRM, old)
+    r['asm'] = asm_one(('intel', r['text']))
+    if r['attst'] == 'ok':
+        r['asm_att'] = asm_one(('att', r['att']))
+    return r
+
+
+def run_roundtrip(hexes):
+    return pmap(roundtrip_one, hexes, chunk=300)
+
+
+def gnu_as(texts, syn):
+    """GNU as (an observed environment component): assemble each text on its own (`as --32`), -> list of hex | None"""
+    import subprocess, re
+    d = core.scratch()
+    src, obj, binf = [os.path.join(d, 'gas_%d.%s' % (os.getpid(), e)) for e in ('s', 'o', 'bin')]
+    head = '.intel_syntax noprefix\n' if syn == 'intel' else '.att_syntax\n'
+    bad = set()
+    for attempt in range(4):
+        with open(src, 'w') as f:
+            f.write(head + '.text\n')
+            for k, t in enumerate(texts):
+                f.write('L%d:\n%s\n' % (k, '' if k in bad or '\n' in t else t))
+            f.write('L%d:\n' % len(texts))
+        p = subprocess.run(['as', '--32', '-o', obj, src], stdout=subprocess.PIPE, stderr=subprocess.PIPE, universal_newlines=True, timeout=600)
+        if p.returncode == 0:
+            break
+        new = set((int(m.group(1)) - 3) // 2 for m in re.finditer(r':(\d+): Error', p.stderr))
+        if not new - bad:
+            raise core.MachineryError('GNU as failed without naming a line: ' + p.stderr[:500])
+        bad |= new
+    else:
+        raise core.MachineryError('GNU as: errors do not converge: ' + p.stderr[:500])
+    subprocess.run(['objcopy', '-O', 'binary', '-j', '.text', obj, binf], check=True, timeout=600)
+    blob = open(binf, 'rb').read()
+    nm = subprocess.run(['nm', obj], stdout=subprocess.PIPE, universal_newlines=True, check=True, timeout=600).stdout
+    off = {}
+    for l in nm.splitlines():
+        p_ = l.split()
+        if len(p_) == 3 and p_[2].startswith('L') and p_[2][1:].isdigit():
+            off[int(p_[2][1:])] = int(p_[0], 16)
+    out = []
+    for k in range(len(texts)):
+        if k in bad or k not in off or k + 1 not in off:
+            out.append(None)
+        else:
+            out.append(blob[off[k]:off[k + 1]].hex())
+    for f in (src, obj, binf):
+        if os.path.exists(f):
+            os.unlink(f)
+    return out
